@@ -1640,6 +1640,8 @@ func rangeWithin(from, to types.Type) bool {
 func (vc *VC) execMakeInterface(x *ssa.MakeInterface, st *State) {
 	v := vc.val(x.X)
 	r := Val{K: KIface, T: x.Type(), S: vc.fresh(x.Name(), "Int")}
+	inner := v
+	r.Inner = &inner
 	vc.local(sx("<", "0", r.S))
 	// remember the dynamic type and payload through uninterpreted functions
 	vc.declareRaw("fun:iface_tag", "(declare-fun iface_tag (Int) Int)")
